@@ -137,14 +137,24 @@ func (m *origModel) anyExpr(e hclsyntax.Expression, want cty.Type, consKind stri
 			m.dontcare = append(m.dontcare, t.Range())
 			return
 		}
-		m.anyExpr(t.LHS, cty.DynamicPseudoType, consKind+">binop", depth+1)
-		m.anyExpr(t.RHS, cty.DynamicPseudoType, consKind+">binop", depth+1)
+		// operands are read with the operator's parameter types (an operand that
+		// cannot have that type is ill-typed: don't-care)
+		lt, rt := cty.DynamicPseudoType, cty.DynamicPseudoType
+		if ps := t.Op.Impl.Params(); len(ps) == 2 {
+			lt, rt = ps[0].Type, ps[1].Type
+		}
+		m.anyExpr(t.LHS, lt, consKind+">binop", depth+1)
+		m.anyExpr(t.RHS, rt, consKind+">binop", depth+1)
 	case *hclsyntax.UnaryOpExpr:
 		if !opFits(t.Op.Type, want) {
 			m.dontcare = append(m.dontcare, t.Range())
 			return
 		}
-		m.anyExpr(t.Val, cty.DynamicPseudoType, consKind+">unop", depth+1)
+		vt := cty.DynamicPseudoType
+		if ps := t.Op.Impl.Params(); len(ps) == 1 {
+			vt = ps[0].Type
+		}
+		m.anyExpr(t.Val, vt, consKind+">unop", depth+1)
 	case *hclsyntax.TupleConsExpr:
 		if want != cty.DynamicPseudoType && !(want.IsListType() || want.IsSetType() || want.IsTupleType()) {
 			m.dontcare = append(m.dontcare, t.Range())
